@@ -167,6 +167,28 @@ func init() {
 			depth, budget = 8, 2400
 		}
 		engine.RunSeq(r, engine.SeqSpec{Name: "c07-seq", WorkerArgs: []string{"worker", "dsm"}, Alphabet: vOpsJSON(alpha), Params: params, Depth: depth, Budget: secs(budget)})
+		// one long history: a deleted dataset with more keys than the garbage collector handles in one batch (10000)
+		{
+			n := 10001
+			if !r.Quick() {
+				n = 20003
+			}
+			pl := &engine.Pool{N: 1, Args: []string{"worker", "gc-large"}, Timeout: secs(900)}
+			out := pl.Do([]json.RawMessage{json.RawMessage(fmt.Sprintf(`{"n":%d}`, n))}, nil)
+			var lr engine.SeqResult
+			if out[0].Err != "" || json.Unmarshal(out[0].Out, &lr) != nil || lr.HarnessEr != "" {
+				r.Cap("c07-gc-large: worker problem " + out[0].Err + lr.HarnessEr)
+			} else {
+				for _, v := range lr.Viol {
+					v.Engine = "ENUM:c07-gc-large"
+					v.Replay = map[string]interface{}{"worker": []string{"worker", "gc-large"}, "n": n}
+					r.AddViolation(v)
+				}
+				r.Evaluations += lr.Checks
+				r.Traces++
+				r.AddPart(map[string]interface{}{"engine": "ENUM", "name": "c07-gc-large", "entities": n, "checks": lr.Checks})
+			}
+		}
 		// SCHED: two requests create the same dataset while a writer writes to it by name and it is deleted again:
 		// whatever the order, nothing of a deleted incarnation may show up anywhere
 		{
